@@ -317,6 +317,51 @@ def r5(F, R, w, mb):
         R.bad("C12-R5", w.path + ":first-read", site, "the draw is not dominated by an examination of the mailbox (first try_recv sites dominating the loop: %d)" % len(first))
 
 
+def r6(F, R):
+    """Commands are delivered: the per-chain command channel cannot drop or refuse a command for a live chain."""
+    R.rule("C12-R6", "command delivery: every channel end that carries ChainCommand is the unbounded std::sync::mpsc Sender/Receiver pair (no SyncSender, "
+                     "whose queue can be full), and every function that sends a ChainCommand uses `Sender::send`, which fails only when the chain is gone "
+                     "(not try_send / send_timeout, whose failure for a live chain would lose a Pause or Resume the controller already acknowledged)")
+    n = 0
+    for p_, a in sorted(F.adts.items()):
+        if not p_.startswith("sampler::") or not a.get("variants"):
+            continue
+        for f in a["variants"][0]["fields"]:
+            ty = f["ty"]
+            if "ChainCommand" not in ty or "mpsc" not in ty:
+                continue
+            n += 1
+            key = "%s.%s:channel" % (p_, f["name"])
+            if "SyncSender" in ty:
+                R.bad("C12-R6", key, p_, "field %s: %s is a bounded channel: with a full queue a command for a live chain blocks the controller or is dropped" % (f["name"], ty))
+            else:
+                R.ok("C12-R6", key, p_, "%s: %s" % (f["name"], ty))
+    sends = 0
+    for b in sorted(F.bodies.values(), key=lambda x: x.path):
+        if not b.path.startswith(("sampler::", "<sampler::")):
+            continue
+        for i, (bb, t) in enumerate(b.calls()):
+            c = t["callee"]
+            st = str(c.get("self_ty") or c.get("impl_self") or "")
+            path = strip_generics(c.get("path", ""))
+            if "ChainCommand" not in st and not any("ChainCommand" in g for g in c.get("gargs", [])):
+                continue
+            nm = c.get("name")
+            if nm not in ("send", "try_send", "send_timeout", "send_deadline"):
+                continue
+            sends += 1
+            key = "%s:send#%d" % (b.path, sends)
+            site = "%s @%s" % (b.path, loc(t["span"]))
+            if nm == "send" and "SyncSender" not in path and "SyncSender" not in st:
+                R.ok("C12-R6", key, site, "%s on the unbounded channel" % path.split("::", 2)[-1])
+            else:
+                R.bad("C12-R6", key, site, "a ChainCommand is sent with %s (%s): the command can be lost although the chain is alive" % (nm, st or path))
+    if sends == 0:
+        R.missing("C12-R6", "send of a ChainCommand")
+    R.floor("C12-R6", 3)
+
+
+
 def run(F, R, config=None):
     if "parallel" not in C10.features(F):
         R.not_evaluated.append("C12: feature `parallel` off in this configuration")
@@ -331,10 +376,11 @@ def run(F, R, config=None):
     r3(F, R, w, mb)
     r4(F, R)
     r5(F, R, w, mb)
+    r6(F, R)
     R.assume("std::sync::mpsc::Receiver::recv blocks until a message arrives or all senders are gone; try_recv never blocks")
     R.assume("commands reach a chain only through its own mailbox channel (C10-R3 capture inventory)")
 
 
-FEATURE_RULES = {"C12-R1": "parallel", "C12-R2": "parallel", "C12-R3": "parallel", "C12-R4": "parallel", "C12-R5": "parallel"}
+FEATURE_RULES = {"C12-R1": "parallel", "C12-R2": "parallel", "C12-R3": "parallel", "C12-R4": "parallel", "C12-R5": "parallel", "C12-R6": "parallel"}
 CONFIGS = ["all", "default"]
 SELFTEST = True
